@@ -93,6 +93,12 @@ CHECKS = {
             "variable with the previous solution and with the unfixed problem built from fresh objects, then re-optimised.",
             "Trusted: mapping rows tell which steps a variable belongs to (checked by C07). Dates between grid points only.",
             "DESIGN.md 5 C15"),
+    "C18": ("property-based testing (Hypothesis): supergradient inequality checked by re-optimising a perturbed problem with scipy-HiGHS",
+            "Exploration: for generated LP portfolios a (node, step) and an injection d of either sign are drawn; the nodal "
+            "right-hand side is perturbed and the problem re-solved independently; the reported nodal price must satisfy "
+            "V(d) <= V(0) + price*d. Any supergradient passes, so degenerate optima cannot raise an alarm.",
+            "Trusted: scipy-HiGHS optimum of the perturbed problem; the row is located through map_nodal_restr (checked by C07).",
+            "DESIGN.md 5 C18"),
     "C19": ("property-based testing (Hypothesis) against an independent UTC-arithmetic reference model",
             "Exploration: thousands of generated grids / windows / interval lists / price inputs per run are compared "
             "with a reference written from the statement (own time arithmetic). No solver, so the comparison is exact; "
